@@ -36,7 +36,7 @@ const rtPath = "verifh/verifrt"
 const rtName = "verifrt_"
 
 // extraImports are further harness packages substitution targets may name.
-var extraImports = map[string]string{"nristub_": "verifh/verifrt/nristub"}
+var extraImports = map[string]string{"nristub_": "verifh/verifrt/nristub", "agentnet_": "verifh/verifrt/agentnet"}
 
 type substRule struct {
 	Pkg  string // package being rewritten (import path suffix under the module), "" = any
